@@ -592,6 +592,7 @@ func subMain(i int, tier string) {
 }
 
 func main() {
+	scen.Yield = vsched.SyncPoint // the slow readers of the scenarios hand control to the scheduler before every Read
 	if s := os.Getenv("VERIF_SCHED_SUB"); s != "" {
 		var i int
 		fmt.Sscan(s, &i)
